@@ -323,6 +323,126 @@ func (p *Program) Reach(roots []*ssa.Function) map[*ssa.Function]bool {
 	return seen
 }
 
+// ReachFrom is Reach from one root, context-sensitive in function-valued arguments: when a function receives a
+// function value (function, closure, method value) as an argument, the calls it makes through that parameter
+// reach only the values passed at the call being followed, not those passed by other callers. A helper shared
+// by several entry points (run this serializer against a buffer) therefore does not connect them.
+func (p *Program) ReachFrom(root *ssa.Function) map[*ssa.Function]bool {
+	p.CallGraph()
+	seen := map[*ssa.Function]bool{}
+	done := map[string]bool{}
+	type env map[int][]*ssa.Function
+	key := func(f *ssa.Function, e env) string {
+		var ks []string
+		for i, fs := range e {
+			for _, g := range fs {
+				ks = append(ks, fmt.Sprintf("%d=%s", i, g.String()))
+			}
+		}
+		sort.Strings(ks)
+		return f.String() + "|" + strings.Join(ks, ",")
+	}
+	// funcsOf resolves a function-valued operand of f under e
+	var funcsOf func(f *ssa.Function, e env, v ssa.Value) []*ssa.Function
+	funcsOf = func(f *ssa.Function, e env, v ssa.Value) []*ssa.Function {
+		switch x := v.(type) {
+		case *ssa.Function:
+			return []*ssa.Function{x}
+		case *ssa.MakeClosure:
+			g := x.Fn.(*ssa.Function)
+			if strings.HasPrefix(g.Synthetic, "bound method wrapper") {
+				if obj, ok := g.Object().(*types.Func); ok {
+					if m := p.Prog.FuncValue(obj); m != nil {
+						return []*ssa.Function{m}
+					}
+				}
+			}
+			return []*ssa.Function{g}
+		case *ssa.ChangeType:
+			return funcsOf(f, e, x.X)
+		case *ssa.Parameter:
+			for i, prm := range f.Params {
+				if prm == x {
+					return e[i]
+				}
+			}
+		}
+		return nil
+	}
+	var visit func(f *ssa.Function, e env)
+	visit = func(f *ssa.Function, e env) {
+		if f == nil || !p.inMod[f] {
+			return
+		}
+		k := key(f, e)
+		if done[k] {
+			return
+		}
+		done[k] = true
+		seen[f] = true
+		for _, af := range f.AnonFuncs {
+			visit(af, nil)
+		}
+		for _, b := range f.Blocks {
+			for _, in := range b.Instrs {
+				site, ok := in.(ssa.CallInstruction)
+				if !ok {
+					continue
+				}
+				cc := site.Common()
+				var targets []*ssa.Function
+				if !cc.IsInvoke() {
+					targets = funcsOf(f, e, cc.Value)
+				}
+				if len(targets) == 0 {
+					for _, g := range p.CalleesAt(site) {
+						if g.Parent() == nil || g.Parent() == f { // closures are reached through their lexical parent only
+							targets = append(targets, g)
+						}
+					}
+				}
+				for _, g := range targets {
+					if strings.HasPrefix(g.Synthetic, "instantiation wrapper") && g.Origin() != nil {
+						g = g.Origin()
+					}
+					var ge env
+					for i, a := range cc.Args {
+						if _, isFn := a.Type().Underlying().(*types.Signature); !isFn {
+							continue
+						}
+						if fs := funcsOf(f, e, a); len(fs) > 0 && i < len(g.Params) {
+							if ge == nil {
+								ge = env{}
+							}
+							ge[i] = fs
+						}
+					}
+					visit(g, ge)
+					// function values handed to code outside the module (qp.List(n, f), slices.SortFunc, ...) are called by it
+					if !p.inMod[g] {
+						for _, fs := range ge {
+							for _, h := range fs {
+								visit(h, nil)
+							}
+						}
+					}
+				}
+				if len(targets) == 0 || cc.IsInvoke() {
+					for _, a := range cc.Args {
+						if _, isFn := a.Type().Underlying().(*types.Signature); isFn {
+							for _, h := range funcsOf(f, e, a) {
+								visit(h, nil)
+							}
+						}
+					}
+				}
+			}
+		}
+	}
+	visit(root, nil)
+	return seen
+}
+
 // Pos renders a position relative to the repo dir.
 func (p *Program) Pos(pos token.Pos) string {
 	if !pos.IsValid() {
